@@ -108,7 +108,7 @@ class RichFormulaGen(gen_formula.FormulaGen):
     a = self._col(t)
     return self.r.choice(['raise ValueError("x")', 'int("a")', '[][1]', '{}["k"]', 'None.x', 'rec.nosuch', 'raise KeyError()', 'assert False',
                           'raise Exception("\\u00e9")', 'float("x")', '1 // 0', 'raise StopIteration()', 'raise SystemExit(1)' if False else '1 % 0',
-                          'x = []\nx.append(x)\nreturn x', '"a" + 1', 'UNKNOWN_FUNC(1)', 'SUM("a", "b") + None',
+                          '"a" + 1', 'UNKNOWN_FUNC(1)', 'SUM("a", "b") + None',
                           ('$%s.nosuch' % a) if a else '1/0', ('IFERROR($%s.x, 1/0)' % a) if a else '1/0'])
 
   def f_typeprobe(self, m, t):
@@ -121,7 +121,8 @@ class RichFormulaGen(gen_formula.FormulaGen):
 
 def plan(tier, seed):
   n, steps = (16, 40) if tier == 'quick' else (160, 70)
-  return [{'hseed': seed * 100003 + 7000 + i, 'steps': steps, 'every': 5} for i in range(n)]
+  return [{'witness': 'summary_raising_key'}, {'witness': 'nan_groupby_key'}] + \
+         [{'hseed': seed * 100003 + 7000 + i, 'steps': steps, 'every': 5} for i in range(n)]
 
 
 # ------------------------------------------------------------------------------------------------
@@ -173,10 +174,13 @@ DATE_MIN, DATE_MAX = -62135596800 + 2 * 86400, 253402300800 - 2 * 86400
 
 def summaries_with_raising_keys(S):
   """
-  Summary tables one of whose group-by source columns is a Date / DateTime column holding a number that
-  no date represents (NaN, +-inf, beyond year 1..9999): reading such a cell from a formula raises, the
-  summary helper formula of that row fails, and the document is in the trigger state of the open finding
-  C05/summary_rows_with_error_keys (the live engine keeps the row's old group, a fresh engine has none).
+  Trigger states of two listed findings that can be read off a snapshot. Returns the set of summary tables
+  (a) one of whose group-by source columns is a Date / DateTime column holding a number that no date
+      represents (NaN, +-inf, beyond year 1..9999): reading such a cell from a formula raises, the summary
+      helper formula of that row fails, and the document is in the trigger state of the open finding
+      C05/summary_rows_with_error_keys (the live engine keeps the row's old group, a fresh engine has none);
+  (b) one of whose group-by source columns holds NaN (also inside a list): open finding nan_lookup_key (a NaN
+      key is found in a lookup index only by object identity, which does not survive storage).
   """
   T = snapshot.rows_of(S, '_grist_Tables')
   C = snapshot.rows_of(S, '_grist_Tables_column')
@@ -187,10 +191,13 @@ def summaries_with_raising_keys(S):
       continue
     for c in C.values():
       sc = c.get('summarySourceCol')
-      if c['parentId'] == tr and sc and sc in C and str(C[sc]['type']).split(':')[0] in ('Date', 'DateTime'):
+      if c['parentId'] == tr and sc and sc in C:
+        isdate = str(C[sc]['type']).split(':')[0] in ('Date', 'DateTime')
         vals = S[T[st]['tableId']][1].get(C[sc]['colId']) or []
         for v in vals:
-          if v == snapshot.NAN or (isinstance(v, (int, float)) and not isinstance(v, bool) and not DATE_MIN < v < DATE_MAX):
+          if v == snapshot.NAN or (isinstance(v, list) and snapshot.NAN in v):
+            out.add(t['tableId'])
+          elif isdate and isinstance(v, (int, float)) and not isinstance(v, bool) and not DATE_MIN < v < DATE_MAX:
             out.add(t['tableId'])
   return out
 
@@ -285,9 +292,63 @@ class ReopenMonitor(histories.Monitor):
     return True
 
 
+def witness_summary_raising_key(acc):
+  """Consequence of the open finding C05/summary_rows_with_error_keys, with a data cell whose value raises when a
+  formula reads it (a Date column holding inf): the live engine keeps the summary row of the old key with its old
+  group, the reopened document removes it while loading."""
+  from vlib.client import EngineProc
+  with EngineProc() as p:
+    p.init_doc()
+    p.apply([['AddTable', 'T', [{'id': 'D', 'type': 'Date', 'isFormula': False}]]])
+    p.apply([['BulkAddRecord', 'T', [None, None], {'D': [86400.0, 172800.0]}]])
+    p.apply([['CreateViewSection', 1, 0, 'record', [2], None]])
+    p.apply([['UpdateRecord', 'T', 1, {'D': float('inf')}]])
+    S = snapshot.take(p)
+    fresh, reply, info = reopen.reopen(p)
+    try:
+      R = snapshot.take(fresh)
+    finally:
+      fresh.close()
+    acc.count('witness_runs')
+    d = snapshot.diff(S, R)
+    if (d or reply.stored) and all(x.startswith('T_summary_D') for x in d) and all(a[1] == 'T_summary_D' for a in reply.stored):
+      acc.violation('summary_rows_with_error_keys', 'witness: Date cell set to inf in a group-by column, reopened: stored %s, diff %s' % (
+          reply.stored[:2], d[:2]), {'diff': d, 'stored': reply.stored})
+    elif d or reply.stored:
+      acc.violation('reopen_state_differs', 'witness history: %s %s' % (reply.stored[:3], d[:3]), {'diff': d, 'stored': reply.stored})
+
+
+def witness_nan_groupby_key(acc):
+  """Open finding nan_lookup_key: a NaN in a group-by column. Lookup indexes are dicts keyed by cell values, and a NaN
+  key is only found by object identity. In the live engine the summary row's key and the source cell are the same float
+  object; after storage they are two objects, so loading adds a new summary row for the NaN and removes the old one."""
+  from vlib.client import EngineProc
+  with EngineProc() as p:
+    p.init_doc()
+    p.apply([['AddTable', 'T', [{'id': 'B', 'type': 'Numeric', 'isFormula': False}]]])
+    p.apply([['BulkAddRecord', 'T', [None, None], {'B': [float('nan'), 1.0]}]])
+    p.apply([['CreateViewSection', 1, 0, 'record', [2], None]])
+    S = snapshot.take(p)
+    fresh, reply, info = reopen.reopen(p)
+    try:
+      R = snapshot.take(fresh)
+    finally:
+      fresh.close()
+    acc.count('witness_runs')
+    d = snapshot.diff(S, R)
+    if (d or reply.stored) and all(x.startswith('T_summary_B') for x in d) and all(a[1] == 'T_summary_B' for a in reply.stored):
+      acc.violation('nan_lookup_key', 'witness: T.B = [nan, 1.0], summary by B, reopened: stored %s, diff %s' % (
+          snapshot._short(reply.stored[:2], 300), d[:2]), {'diff': d, 'stored': reply.stored})
+    elif d or reply.stored:
+      acc.violation('reopen_state_differs', 'witness history: %s %s' % (reply.stored[:3], d[:3]), {'diff': d, 'stored': reply.stored})
+
+
 def run_shard(spec, acc):
+  if spec.get('witness'):
+    return globals()['witness_' + spec['witness']](acc)
   mon = ReopenMonitor(spec.get('every', 5))
-  h = histories.History(acc, spec['hseed'], [mon], spec['steps'], weights=WEIGHTS, flags=FLAGS, avoid_open_triggers=True)
+  h = histories.History(acc, spec['hseed'], [mon], spec['steps'], weights=WEIGHTS, flags=FLAGS, avoid_open_triggers=True,
+                        proc_kw={'timeout': 240.0})
   h.gen = RichGen(h.rnd, WEIGHTS, FLAGS)
   h.gen.fgen = RichFormulaGen(h.rnd, off=h.gen.flags['formula_off'])
   h.run()
